@@ -1,6 +1,7 @@
 import HC.Proto.H2Send
 import HC.Proto.Heads
 import HC.Extracted.ReqGlue
+import HC.Stream.Http
 /-!
 # H2Wire — the HTTP/2 send path with its contents: what the client is sent, frame by frame
 
@@ -180,6 +181,12 @@ def dataOf : List Frame → Bytes
   | .data d :: r => d ++ dataOf r
   | _ :: r => dataOf r
 
+/-- the DATA payloads of a frame list -/
+def payloads : List Frame → List Bytes
+  | [] => []
+  | .data d :: r => d :: payloads r
+  | _ :: r => payloads r
+
 /-! ### reading a history (newest first) -/
 
 /-- progress of a response through `stream_send`: 0 nothing yet, 1 head sent (body), 2 trailers, 3 body ended,
@@ -209,5 +216,16 @@ def headsOf (srv : Headers) : List AOp → List Frame
   | [] => []
   | .head st hs :: r => headsOf srv r ++ [.headers (h2Headers st hs srv)]
   | _ :: r => headsOf srv r
+
+/-- the stream events an `HTTPStream` event becomes in `H2Protocol.stream_send` (the access-log call is not one) -/
+def evOps : List HC.Stream.Http.Ev → List AOp
+  | [] => []
+  | .response st hs :: r => .head st hs :: evOps r
+  | .info st hs :: r => .head st hs :: evOps r
+  | .body d :: r => .body d :: evOps r
+  | .trailers hs :: r => .trailers hs :: evOps r
+  | .endBody :: r => .end_ :: evOps r
+  | .streamClosed :: r => .closed :: evOps r
+  | _ :: r => evOps r
 
 end HC.Proto.H2Wire
